@@ -52,9 +52,9 @@ ANCHORS = [
 def plan(tier):
     if tier == "quick":
         return {"shards": 16, "stride": 17, "e2e_every": 40, "sibling_sets": 60, "title_sets": 40,
-                "timeout": 300}
+                "timeout": 900}
     return {"shards": 16, "stride": 1, "e2e_every": 150, "sibling_sets": 2500, "title_sets": 1500,
-            "timeout": 3000}
+            "timeout": 7200}
 
 
 def compiles_as_attribute(attr):
